@@ -5,7 +5,7 @@ accepted by two layout builds; the returned pair is the Pedersen chain of the ad
 fixture, labelled as such.
 Tie/matrix: each proof x each layout x each build (2 quick / 8 thorough): the real parser + CLI conversion + verify; expected verdict
 from the proof's own parameters (layout, Stone version, pow hash, and the commitment hash iff a masked Merkle layer exists); the same
-proofs through the Lean model (independent pipeline model, static layouts) must give the same verdict and the same returned pair;
+proofs through the Lean model (independent pipeline model, all seven layouts) must give the same verdict and the same returned pair;
 serialise/deserialise round trip keeps value and verdict."""
 import glob, json, os
 import framework as fw
@@ -17,11 +17,11 @@ LEAN_TARGETS = ['Swiftness.Props.C03']
 TRANSLATOR_PARTS = ('consts', 'ast')
 STATIC = ['dex', 'recursive', 'recursive_with_poseidon', 'small', 'starknet', 'starknet_with_keccak']
 LAYOUTS = STATIC + ['dynamic']
-DRV_LAYOUTS = STATIC
+DRV_LAYOUTS = STATIC + ['dynamic']
 BUILDS = {'quick': [('k160', 'stone5', 'full', 'all_layouts', 'parser'), ('b248', 'stone6', 'full', 'all_layouts', 'parser')],
           'thorough': [(h, s, 'full', 'all_layouts', 'parser') for s in ('stone5', 'stone6') for h in ('k160', 'k248', 'b160', 'b248')]}
 RULE = ('26 honest proofs (25 shipped Stone proofs + in-tree fixture) x 7 layouts under each build: verifyfile (real parser + CLI '
-        'conversion + verify); own-layout proofs additionally through the Lean model (static layouts) and through a serde round trip. '
+        'conversion + verify); own-layout proofs additionally through the Lean model (all seven layouts) and through a serde round trip. '
         'expected = accept iff layout, Stone version and PoW hash family match and (no masked Merkle layer or commitment hash matches). '
         'non-trivial = all; distinct = distinct (proof, layout, build).')
 ASSUMPTIONS = ['"every proof the Stone prover can produce" is sampled by the shipped corpus only (no prover model)',
@@ -64,9 +64,9 @@ def cases(rng, tier, feats, drv_ok):
                         'expect': expected(pr, L, feats), 'hxonly': True, 'pr': pr['path'].split('proofs/')[1], 'L': L})
         out.append({'line': f"roundtrip {pr['layout']} {pr['path']}", 'kind': 'roundtrip', 'expect': expected(pr, pr['layout'], feats), 'hxonly': True,
                     'pr': pr['path'].split('proofs/')[1], 'L': pr['layout']})
-    # the same proofs through the model: tokens from the real parser (pre-stage), static layouts only
+    # the same proofs through the model: tokens from the real parser (pre-stage); all seven layouts (the dynamic layout through Model/LayoutDynamic)
     if HX and drv_ok:
-        st = [pr for pr in prs if pr['layout'] in STATIC and (expected(pr, pr['layout'], feats) or rng.chance(1, 4))]
+        st = [pr for pr in prs if pr['layout'] in LAYOUTS and (expected(pr, pr['layout'], feats) or rng.chance(1, 4))]
         toks, _ = fw.run_split(lambda ls, **kw: fw.run_hx(HX, ls), [f"parsefile {pr['path']}" for pr in st])
         secs, _ = fw.run_split(lambda ls, **kw: fw.run_hx(HX, ls), ['security_bits ' + t[3:] for t in toks])
         for pr, t, s in zip(st, toks, secs):
